@@ -87,6 +87,10 @@ pub fn documents(tier: Tier) -> Vec<A> {
     // 3f. local names that only look special: a prefixed attribute called "xmlns" is an ordinary attribute, an element
     //     called xmlns / xml is an ordinary element, attributes called id / space outside the XML namespace are plain
     out.push(A::doc(vec![A::el("", "a").decl("p", X).attr(X, "xmlns", "urn:q").child(A::el("", "xmlns").attr(X, "id", " i ").attr("", "space", "preserve").child(A::el(X, "xml")))]));
+    // 3g. content that merely looks like an encoding declaration (the encoding of a byte input is given by a byte order
+    //     mark or by the XML declaration, by nothing else)
+    out.push(A::doc(vec![A::el("", "doc").attr("", "encoding", "iso-8859-1").child(A::text("\u{e9}"))]));
+    out.push(A::doc(vec![A::comment(" encoding=\"iso-8859-1\" "), A::el("", "meta").attr("", "charset", "windows-1252").child(A::text("\u{20ac}\u{e9}"))]));
     // 4. xml:id and xml:space
     out.push(A::doc(vec![A::el("", "a").attr(XML_NS, "id", "i").child(A::el("", "b").attr(XML_NS, "id", "j k").attr(XML_NS, "space", "preserve"))]));
     out.push(A::doc(vec![A::el("", "a").attr("", "id", " x  y ").attr(XML_NS, "id", "a b")]));
